@@ -257,7 +257,7 @@ def expected_targets(hints):
     return out
 
 
-PRIO_ANY = [ABSENT, 0.0, 3, "high", [1]]
+PRIO_ANY = [ABSENT, 0.0, 3, "high", [1], 10 ** 400]      # (a JSON integer beyond the range of a double is still a number)
 PRIO_NUM = [ABSENT, 0.0, 3, 2.5]
 
 
